@@ -734,8 +734,9 @@ int main(int argc, char** argv) {
                 unsigned d = s / 2, g = s % 2;
                 uint32_t seq = nextSeq[s]++;
                 genMessage(P, g_me, d, g, tid, seq, msg);
-                if (selftest == 1 && P.serial == 2 && tid == 0 && seq == 0)
-                  continue; // harness self-test only (never set by the spec): a planned message is not sent
+                // harness self-test only (never set by the spec): a planned message is not sent (2: one owed to host 1)
+                if (P.serial == 2 && tid == 0 && seq == 0 && (selftest == 1 || (selftest == 2 && d == 1)))
+                  continue;
                 if (msg.size() >= sizeof(Hdr) && (seq & 1)) {
                   Hdr h;
                   memcpy(&h, msg.data(), sizeof h);
